@@ -228,6 +228,10 @@ Proof. intros H M. apply H. apply mem_str_In. exact M. Qed.
 Lemma service_type_ok t : mem_str t enum_service_types = true -> type_allowed KNS t = true.
 Proof. intro H. apply service_types_in_vocab. apply mem_str_In. exact H. Qed.
 
+Lemma reads_need_elem x : reads (need_elem x).
+Proof. unfold need_elem. auto 8 with reads. Qed.
+Lemma reads_for_each_need_elem l : reads (for_each l need_elem).
+Proof. apply reads_for_each. intro. apply reads_need_elem. Qed.
 Lemma reads_for_each_need l : reads (for_each l (need KCP)).
 Proof. apply reads_for_each. intro. apply reads_need. Qed.
 
@@ -252,7 +256,7 @@ Proof.
       (eapply api_node_add_ns; [exact W | apply service_type_ok; exact P | exact R1]).
   - (* add_link *)
     apply andb_true_iff in P as [P1 P2].
-    apply bind_reads in R; [| apply (reads_for_each_need ifs) ].
+    apply bind_reads in R; [| apply (reads_for_each_need_elem ifs) ].
     destruct R as [[s1 [u [Hm [Hg R]]]] | [e [Hr Hg]]]; [| rewrite Hg; exact W].
     rewrite <- Hg in W, P2.
     eapply api_add_link; [exact W | eapply mem_enum_allowed; [apply link_types_in_vocab | exact P1] | exact P2 | exact R].
